@@ -1187,7 +1187,11 @@ func (p *Parser) parsePropertyName(in string) (propertyName PropertyName) {
 		p.next()
 	} else if p.tt == OpenBracketToken {
 		p.next()
+		// a computed key is an ordinary expression, also inside what may turn out to be an arrow function's parameters
+		prevAssumeArrowFunc, prevIn := p.assumeArrowFunc, p.in
+		p.assumeArrowFunc, p.in = false, true
 		propertyName.Computed = p.parseExpression(OpAssign)
+		p.assumeArrowFunc, p.in = prevAssumeArrowFunc, prevIn
 		if !p.consume(in, CloseBracketToken) {
 			return
 		}
